@@ -75,7 +75,8 @@ type symCtx struct {
 	allocN       int
 	copyHook     func(c *symCtx, dst, src sv, n int64) (handled, ok bool) // the builtin copy, before its default model
 	writeHook    func(c *symCtx, data sv) bool                            // Write on the recording writer
-	writeFails   bool                                                     // … which then accepts one byte and fails
+	writeFails   bool                                                     // … which then fails
+	writeTakes   int64                                                    // … after accepting this many bytes
 	opaqueNonNil map[string]bool                                          // callees treated as "returns some non-nil pointer"
 	// hook intercepts a call before it is evaluated (static, closure or
 	// dynamically dispatched).  handled=false lets evaluation proceed.
@@ -978,7 +979,7 @@ func (c *symCtx) call(x *ssa.Call, get func(ssa.Value) (sv, bool), depth int) (s
 			}
 			if c.writeFails {
 				// a writer that takes one byte and reports an error: WriteTo must hand both back
-				return sv{k: 't', tup: []sv{{k: 'i', i: 1}, {k: 'I', addr: "WERR"}}}, true
+				return sv{k: 't', tup: []sv{{k: 'i', i: c.writeTakes}, {k: 'I', addr: "WERR"}}}, true
 			}
 			return sv{k: 't', tup: []sv{{k: 'i', i: data.i}, {k: 'z'}}}, true
 		}
